@@ -17,7 +17,7 @@ import (
 // qualified rule with ';' as stop token. The rewind is done by rebuilding the token stream, so every token taken
 // from the iterator during the attempt has to be part of the rebuilt stream, in the order it was taken.
 func c06Rewind(c *core.Check) {
-	r := c.Rule("R6", "a failed declaration is re-parsed as a rule on the same tokens: in consumeBlocksContent the stream handed to consumeQualifiedRule is the concatenation of every slice that collected a token taken from the iterator (the declaration tokens, then the ';' that stopped the attempt) followed by the iterator's remaining tail", 3)
+	r := c.Rule("R6", "a failed declaration is re-parsed as a rule on the same tokens: in consumeBlocksContent the stream handed to consumeQualifiedRule is the concatenation of every slice that collected a token taken from the iterator (the declaration tokens, then the ';' that stopped the attempt) followed by the iterator's remaining tail", 1)
 	c06RewindRule(c, r)
 }
 
@@ -397,7 +397,7 @@ func constBytesOf(v ssa.Value) (string, bool) {
 // c06EscapeAtCursor: "starts with a valid escape" looks at the bytes at the cursor.
 func c06EscapeAtCursor(c *core.Check) {
 	p := c.Prog
-	r := c.Rule("R9", "valid escapes are tested at the cursor: in the consumers of the tokenizer, every test whether the input starts with backslash-newline (an invalid escape) slices the source at the current position tk.pos — not at the start of the token or another saved position", 5)
+	r := c.Rule("R9", "valid escapes are tested at the cursor: in the consumers of the tokenizer, every test whether the input starts with backslash-newline (an invalid escape) slices the source at the current position tk.pos — not at the start of the token or another saved position", 3)
 	n := 0
 	for _, fn := range p.FuncsOfPkg("css/parser") {
 		if fn.Signature.Recv() == nil || !strings.Contains(fn.Signature.Recv().Type().String(), "tokenizer") {
